@@ -48,6 +48,8 @@ CONSTANTS
                    \* object is copied as it is, so a path that ends in a symlink is persisted as a symlink
     CollectOrder,  \* insights.collect.collect(): "configs-then-denylist" (specified: the deny list is applied after
                    \* the manifest's component configuration) | "denylist-then-configs"
+    ObserverMode,  \* "copied": every Broker has its own observer sets (specified) | "shared": a Broker shares them
+                   \* with the process-wide table, so the persister of an earlier collect() run is still attached
     DenyFactories, \* factories explored by the DenyList sub-model
     DenyMax        \* entries per deny list
 
@@ -231,18 +233,18 @@ AllFactories == {"simple_file", "glob_file", "first_file", "foreach_collect", "s
                  "command_with_args", "foreach_execute", "container_execute", "container_collect"}
 FileFactories == {"simple_file", "glob_file", "first_file", "foreach_collect"}
 SingleItem    == {"simple_file", "simple_command", "command_with_args"}
-NItems(f)     == IF f \in SingleItem THEN 1 ELSE 3
+NItems(f)     == IF f \in SingleItem THEN 1 ELSE IF f \in FileFactories THEN 4 ELSE 3
 
 (* Candidate items.  Strings are opaque to the model; their CLASS is what   *)
 (* the cases range over: plain, containing a blank, containing characters  *)
 (* that are special in regular expressions, and -- for commands -- an       *)
 (* argument that is a deep path (40 segments, then 12 ".." segments).       *)
-FileWords == << <<"/x/ab">>, <<"/x/my", "b">>, <<"/x/c+(1).repo">> >>
-FileBase  == <<"ab", "my b", "c+(1).repo">>
+FileWords == << <<"/x/ab">>, <<"/x/my", "b">>, <<"/x/c+(1).repo">>, <<"/x/sub/../nn">> >>   \* the 4th is not in shortest form
+FileBase  == <<"ab", "my b", "c+(1).repo", "nn">>
 DeepArg   == "/n/n/n/n/n/n/n/n/n/n/n/n/n/n/n/n/n/n/n/n/n/n/n/n/n/n/n/n/n/n/n/n/n/n/n/n/n/n/n/n" \o
              "/../../../../../../../../../../../../esc"
 CmdArgs   == <<"ab", DeepArg, "a+b(c)">>
-Classes   == <<"plain", "blank", "meta">>
+Classes   == <<"plain", "blank", "meta", "nonnormal">>
 CmdClasses == <<"plain", "deep", "meta">>
 CPaths    == <<"/x/ab", "/x/b", "/x/a+b(c)">>
 Item(f, i) ==
@@ -255,7 +257,7 @@ Item(f, i) ==
 
 (* Entries a user may write.  Distractors: a textual (not word-wise) prefix, *)
 (* a longer command, an identifier that names no component.                 *)
-FileEntries(f) == {Item(f, i).w : i \in 1..3} \cup {<<"/x/a">>, <<"/x/my">>, <<"nosuchspec">>}
+FileEntries(f) == {Item(f, i).w : i \in 1..4} \cup {<<"/x/a">>, <<"/x/my">>, <<"/x/nn">>, <<"nosuchspec">>}
 CmdEntries(f)  ==
     {Item(f, i).w : i \in 1..3} \cup
     {<<Item(f, 1).w[1]>>, SubSeq(Item(f, 1).w, 1, Len(Item(f, 1).w) - 1),
@@ -304,7 +306,7 @@ SaveAsForms(f) ==
       [] f \in {"glob_file", "foreach_collect"} -> {"dir", "absdir", "bare"}
       [] OTHER -> {}
 
-Picks(f) == IF f \in SingleItem THEN {1, 2, 3} ELSE {1}
+Picks(f) == IF f = "simple_file" THEN {1, 2, 3, 4} ELSE IF f \in SingleItem THEN {1, 2, 3} ELSE {1}
 DCase(f, pk, fe, ce, sa) == [factory |-> f, comp |-> "", pick |-> pk, files |-> fe, commands |-> ce, comps |-> {},
                             saveas |-> sa, entry |-> "apply"]
 (* entry: "apply"   = apply_blacklist(cfg), then the datasource is evaluated;                      *)
@@ -429,7 +431,10 @@ Attempt ==
            THEN dn' = [dn EXCEPT !.pos = @ + 1]                       \* BlacklistedSpec: element skipped
            ELSE dn' = [dn EXCEPT !.pos = IF c.factory = "first_file" THEN Len(its) + 1 ELSE @ + 1,
                                   !.acc = @ \cup {dn.pos},           \* Open / Exec
-                                  !.wr = @ \cup {FactoryDst(c, dn.pos)}]   \* Persist (the observer)
+                                  !.wr = @ \cup {FactoryDst(c, dn.pos)} \cup   \* Persist (the observer)
+                                         (IF c.entry = "collect" /\ ObserverMode = "shared"
+                                            THEN {<<"out0">> \o Tail(FactoryDst(c, dn.pos))}   \* ... and the earlier run's
+                                            ELSE {})]
     /\ UNCHANGED <<sub, lay, path, w, yielded, written>>
 
 NextDeny == Configure \/ Attempt
